@@ -63,6 +63,21 @@ def rand_program(rng, nc, depth):
     return {"z0": z0, "a": a, "script": script, "depth": depth, "dz": dz, "da": da}
 
 
+def rand_program_wide(rng):
+    """a dense destination of 10-18 elements and a sparse source (also beyond the destination's last coordinate): one populate step skips many stored elements"""
+    nc = rng.randint(12, 18)
+    dz = rng.choice([0, 0, 5])
+    z0 = rand_tree(rng, nc, 1, pz=0.1, pabs=0.15, dflt=dz)
+    if rng.random() < 0.5 and len(z0["e"]) > 3:
+        z0["e"] = z0["e"][:rng.randint(len(z0["e"]) - 3, len(z0["e"]) - 1)]          # the source reaches beyond the destination
+    a = rand_tree(rng, nc, 1, pz=0.1, pabs=0.8)
+    script = []
+    for pth, _ in present_paths(a, 1):
+        ch = rng.choice(["leave", "assign", "assign", "accum", "zero"])
+        script.append({"p": list(pth), "ch": ch, "v": rng.randint(1, 2) if ch in ("assign", "accum") else 0})
+    return {"z0": z0, "a": a, "script": script, "depth": 1, "dz": dz, "da": 0}
+
+
 def rand_program_u(rng, nc):
     """depth-1 program whose source rank is declared uncompressed: every coordinate of the shape is offered"""
     z0 = rand_tree(rng, nc, 1)
@@ -139,6 +154,8 @@ def programs(ctx):
         progs.append(rand_program(ctx.rng, 4, ctx.rng.choice([1, 2])))
     for _ in range(n3):
         progs.append(rand_program_u(ctx.rng, 4))
+    for _ in range(2 * n3):
+        progs.append(rand_program_wide(ctx.rng))
     return progs, design, states
 
 
@@ -160,6 +177,36 @@ def run_programs(ctx, prop, progs, embs=("fiber", "tensor")):
         v["pop"] = True
     verdicts, vstats = tlc.validate("PopTrace.tla", "PopTrace.cfg", logs, name=prop + "_pop")
     return behs, logs, verdicts, vstats, tviol
+
+
+def _exec_session(c):
+    from . import family
+    return family.guarded(exec_pop.execute_session, c)
+
+
+def run_sessions(ctx, prop, n):
+    """populate SEQUENCES: three tensors take turns as destination and source (4-6 loops); every loop is judged as a program against the projected state just before it"""
+    rng = ctx.rng
+    cases = []
+    for k in range(n):
+        depth = rng.choice([2, 3, 3])
+        steps = []
+        for _ in range(rng.randint(4, 6)):
+            d, s_ = rng.sample([0, 1, 2], 2)
+            steps.append({"dst": d, "src": s_, "seed": rng.randint(0, 10 ** 6)})
+        cases.append({"tid": k + 1, "depth": depth, "trees": [rand_tree(rng, 2, depth, pz=0.1, pabs=0.25) for _ in range(3)], "steps": steps})
+    with cf.ProcessPoolExecutor(max_workers=16) as ex:
+        outs = list(ex.map(_exec_session, cases, chunksize=16))
+    from . import family
+    cases, outs, tviol = family.split_timeouts(prop, cases, outs, lambda b: "populate-session")
+    logs = []
+    for c, o in zip(cases, outs):
+        for r in o["records"]:
+            r["tid"] = len(logs) + 1
+            r["session"] = {k: c[k] for k in ("depth", "trees", "steps")}
+            logs.append(r)
+    verdicts, vstats = tlc.validate("PopTrace.tla", "PopTrace.cfg", [{k: v for k, v in lg.items() if k != "session"} for lg in logs], name=prop + "_popsess")
+    return cases, logs, verdicts, vstats, tviol
 
 
 def classify(lg):
@@ -188,6 +235,18 @@ def run(ctx):
                 k = (cl, classify(lg))
                 devs.setdefault(k, [0, rec["behaviour"]])
                 devs[k][0] += 1
+    scases, slogs, sverd, svst, stv = run_sessions(ctx, "C05", 250 if ctx.quick else 4000)
+    violations += stv
+    for lg in slogs:
+        v = sverd[lg["tid"]]
+        events += v["n"]
+        for (_, cl) in v["fails"]:
+            clauses[cl] = clauses.get(cl, 0) + 1
+            if cl.startswith("P:C05:"):
+                violations.append({"clause": cl, "op": "populate-session", "where": f"tensor:depth{lg['depth']}:step{lg['session_step']}", "step": lg["session_step"],
+                                   "detail": {"exc": lg["exc"], "script": lg["script"]}, "behaviour": {"session": lg["session"]}})
+    vstats = {"distinct": vstats["distinct"] + svst["distinct"], "generated": vstats["generated"] + svst["generated"]}
+    logs = logs + slogs
     return {"states": states + vstats["distinct"], "transitions": states + vstats["generated"], "traces": len(logs), "evaluations": events,
             "distinct_nontrivial": len(distinct),
             "rule": "a case is one populate program (z0, a, script) executed on the implementation; events = body executions + final state; "
@@ -204,6 +263,22 @@ def run(ctx):
 
 
 def replay(ctx, rec):
+    if "session" in rec.get("behaviour", {}):
+        from . import family
+        c = dict(rec["behaviour"]["session"])
+        c["tid"] = 1
+        o = family.guarded(exec_pop.execute_session, c)
+        if o.get("timeout") or o.get("crash"):
+            print("VIOLATION property=C05 replay=(replayed: " + str(o.get("crash", "the call does not terminate")) + ")")
+            return 1
+        for n, r in enumerate(o["records"]):
+            r["tid"] = n + 1
+        verdicts, _ = tlc.validate("PopTrace.tla", "PopTrace.cfg", o["records"], name="C05_replay", shards=1)
+        bad = [f for v in verdicts.values() for f in v["fails"] if f[1].startswith("P:C05")]
+        print(json.dumps(bad))
+        if bad:
+            print("VIOLATION property=C05 replay=(replayed)")
+        return 1 if bad else 0
     b = dict(rec["behaviour"])
     b["tid"] = 1
     from . import family
